@@ -96,7 +96,7 @@ let bounds_match_reasons (p : pdump) : bool =
             string_of_qd av = string_of_qd v) p.pbounds
 
 let judge_main () =
-  let defs = ref [] and idx = ref 0 and pending = ref [] and after_check_sat = ref false in
+  let defs = ref [] and idx = ref 0 and pending = ref [] and after_check_sat = ref false and extra = ref [] in
   (try
      while true do
        let line = input_line stdin in
@@ -104,6 +104,12 @@ let judge_main () =
           if String.length line < 2 then ()
           else if String.sub line 0 2 = "E " then begin
             incr idx;
+            extra := [];
+            (match words line with
+             | "E" :: (("setlb" | "setub") as w) :: v :: vl :: _ ->
+               (* set_lb / set_ub: the requested bound itself is an assumption of whatever the call reports *)
+               extra := [((nat_of_int (int_of_string v), (if w = "setlb" then Lower else Upper)), qd_of_string vl)]
+             | _ -> ());
             if String.length line >= 7 && String.sub line 0 7 = "E reset" then (defs := []; pending := [])
           end
           else if String.length line > 2 && String.sub line 0 2 = "X " then
@@ -138,6 +144,7 @@ let judge_main () =
                 match atoms_of_clause p c with
                 | None -> print_endline ("J " ^ string_of_int !idx ^ " clause ok " ^ string_of_clause c ^ " (contains TRUE)")
                 | Some ats ->
+                  let ats = ats @ !extra in
                   let all = ats @ root_facts p in
                   if refute_check d ats then print_endline ("J " ^ string_of_int !idx ^ " clause ok " ^ string_of_clause c)
                   else if refute_check d all then print_endline ("J " ^ string_of_int !idx ^ " clause ok " ^ string_of_clause c ^ " (with root facts)")
